@@ -540,20 +540,30 @@ class SymInt:
     if o == 2: return 1 << self
     raise Inconclusive("symbolic pow")
 
-  def _cmp(self, o, f):
+  def _cmp(self, o, f, name=None):
+    if isinstance(o, float) and name is not None:
+      # integer vs float constant: compare against the neighbouring integer (exact for integer-valued self)
+      import math
+      if name == 'lt': return self._cmp(math.ceil(o), f)
+      if name == 'le': return self._cmp(math.floor(o), f)
+      if name == 'gt': return self._cmp(math.floor(o), f)
+      if name == 'ge': return self._cmp(math.ceil(o), f)
+      if name in ('eq', 'ne'):
+        if o != int(o): return (name == 'ne')
+        return self._cmp(int(o), f)
     o = lift(o)
     if o is None: return NotImplemented
     return SymBool(f(self.e, o.e))
   def __eq__(self, o):
-    r = self._cmp(o, lambda a, b: a == b)
+    r = self._cmp(o, lambda a, b: a == b, 'eq')
     return False if r is NotImplemented else r
   def __ne__(self, o):
-    r = self._cmp(o, lambda a, b: a != b)
+    r = self._cmp(o, lambda a, b: a != b, 'ne')
     return True if r is NotImplemented else r
-  def __lt__(self, o): return self._cmp(o, lambda a, b: a < b)
-  def __le__(self, o): return self._cmp(o, lambda a, b: a <= b)
-  def __gt__(self, o): return self._cmp(o, lambda a, b: a > b)
-  def __ge__(self, o): return self._cmp(o, lambda a, b: a >= b)
+  def __lt__(self, o): return self._cmp(o, lambda a, b: a < b, 'lt')
+  def __le__(self, o): return self._cmp(o, lambda a, b: a <= b, 'le')
+  def __gt__(self, o): return self._cmp(o, lambda a, b: a > b, 'gt')
+  def __ge__(self, o): return self._cmp(o, lambda a, b: a >= b, 'ge')
   def __bool__(self): return E().decide(self.e != 0)
 
   def concrete(self):
